@@ -158,7 +158,7 @@ func build(c Case) (*session, error) {
 
 		stall := false
 		srv := &sim.NCServer{
-			Hello:   sim.HelloSpec{Caps: caps, SessionID: "9", Layout: "pretty"}.Render(),
+			Hello:   sim.HelloSpec{Caps: append(append([]string{}, caps...), sim.StdCaps...), SessionID: "9", Layout: "pretty"}.Render(),
 			Version: c.Version,
 		}
 		srv.OnRequest = func(r sim.NCRequest) []sim.NCAction {
